@@ -10,7 +10,7 @@ from ..rng import Streams
 
 ID = 'C07'
 LEVEL = 'exploration'
-TIERS = {'quick': 12000, 'thorough': 400000}
+TIERS = {'quick': 30000, 'thorough': 1200000}
 RULE = ('seeded histories of 1-6 eval calls over one persistent host names mapping (host-supplied ints, bools, '
         'floats, Decimals, strings, nested lists/dicts) on one long-lived SqParser; programs of 1-5 statements '
         'from a type-directed generator over every operator, statement form, slice form and modelled builtin '
